@@ -140,6 +140,36 @@ def sast_family_resolved_d(which: int, style: int, args: int, decoy: int, layout
     return fin(_sast_resolved(DETECTORLESS, which, style, args, decoy, layout))
 
 
+def mktemp_chained_assignment(style: int, scope: int, n_targets: int) -> bool:
+    """secure-tempfile (complete real pipeline) on `a = tempfile.mktemp()` / `a = b = tempfile.mktemp()` /
+    `a = b = c = ...` under 4 import styles, at module level or in a function, every target read afterwards: no name
+    becomes unresolved (each target is still bound after the rewrite, or the statement is left alone).
+    pre: 1 <= n_targets <= 3
+    post: _
+    """
+    from crosshair.tracers import NoTracing
+
+    from harness import hardsast
+    from tv import driver
+
+    imp, callee = hardsast.sel([("import tempfile", "tempfile.mktemp"), ("import tempfile as al", "al.mktemp"), ("from tempfile import mktemp", "mktemp"), ("from tempfile import mktemp as G", "G")], style)
+    names = ["a", "b", "c"][: (1 if n_targets == 1 else (2 if n_targets == 2 else 3))]
+    stmt = " = ".join(names) + " = %s()" % callee
+    use = "print(%s)" % ", ".join(names)
+    if scope % 2 == 1:
+        src = "%s\n\ndef fn():\n    %s\n    %s\n" % (imp, stmt, use)
+    else:
+        src = "%s\n\n%s\n%s\n" % (imp, stmt, use)
+    with NoTracing():
+        out, _ = driver.run_pipeline(hardsast._reg()["pixee:python/secure-tempfile"], src)
+        try:
+            compile(out, "m.py", "exec")
+        except SyntaxError:
+            return False
+        ok = not (hardsast.unresolved(out) - hardsast.unresolved(src))
+    return fin(ok)
+
+
 def warmup():
     mutable_params(0, True, False, True, False, False)
     import_block_order(7, 0, 0, False)
@@ -165,5 +195,5 @@ SPEC = {
     "outside": ["import insertion by codemods outside the families listed under functions", "RemoveUnusedVariables, sql-parameterization clean-up", "class scopes, nested functions deeper than one level"],
     "rule": "as C08; the query is restricted to outcome kind NameError",
     "drivers": [name_errors],
-    "xh": [__import__("vlib.main", fromlist=["Xh"]).Xh(fn, 500, 900) for fn in ("import_block_order", "import_block_unused", "import_block_future")] + [__import__("vlib.main", fromlist=["Xh"]).Xh("mutable_params", 300, 600)] + [__import__("vlib.main", fromlist=["Xh"]).Xh(fn, 500, 900) for fn in ("sast_family_resolved_a", "sast_family_resolved_b", "sast_family_resolved_c", "sast_family_resolved_d")],
+    "xh": [__import__("vlib.main", fromlist=["Xh"]).Xh(fn, 500, 900) for fn in ("import_block_order", "import_block_unused", "import_block_future")] + [__import__("vlib.main", fromlist=["Xh"]).Xh("mutable_params", 300, 600)] + [__import__("vlib.main", fromlist=["Xh"]).Xh(fn, 500, 900) for fn in ("sast_family_resolved_a", "sast_family_resolved_b", "sast_family_resolved_c", "sast_family_resolved_d")] + [__import__("vlib.main", fromlist=["Xh"]).Xh("mktemp_chained_assignment", 100, 200)],
 }
